@@ -4,7 +4,7 @@ from hypothesis import strategies as st
 import gen_const
 import gen_source
 
-SURR = ["\ud800", "a\udc80", "\udfff\ud800", "doc\ud800", "\udcffx.py", "ok", "", "é", "\U0001f600"]
+SURR = ["\ud800", "a\udc80", "\udfff\ud800", "doc\ud800", "\udcffx.py", "ok", "", "é", "\U0001f600", "\ud83d\ude00", "p\ud800\udc00"]
 
 
 @st.composite
@@ -101,6 +101,8 @@ def fixed_cases(big=False):
     out.append({"src": "x = 1\n", "filename": "\udcffx.py", "mode": "exec", "optimize": 0, "min_version": 7, "normalize": False, "_label": "json_examples"})
     for kind in ["operand", "additional", "additional_fn"]:
         for val in [["float", "7ff8000000000001"], ["fset", [["fset", [["float", "fff8000000000000"]]], ["int", "1"]]],
+                    ["fset", [["float", "7ff8000000000000"], ["float", "fff8000000000000"], ["float", "3ff8000000000000"]]],
+                    ["tuple", [["fset", [["float", "7ff8000000000001"], ["float", "7ff8000000000000"]]], ["ell"], ["tuple", [["ell"]]]]],
                     ["complex", "8000000000000000", "7ff0000000000000"], ["str", "\ud800"], ["tuple", [["str", "\udc80"], ["bytes", "ff"]]],
                     ["int", str(2 ** 53)], ["int", str(-(2 ** 53))], ["int", str(2 ** 53 + 1)], ["float", "0010000000000000"]]:
             out.append({"alter": {"kind": kind, "value": val}, "min_version": 7, "normalize": False, "_label": "altered_code"})
